@@ -1037,6 +1037,20 @@ Qed.
 (* 7. assignment statements                                                                      *)
 Definition compat (L R : ann) : Prop := (aex R = true -> aw R = aw L) /\ (aex R = false -> aw R <= aw L).
 
+Lemma assign_sig_compat rl r ns : assign_sig strict' rl r = Some ns -> compat (fst rl) (fst r).
+Proof.
+  unfold assign_sig. cbn zeta.
+  destruct (astr (fst rl)) as [x|], (astr (fst r)) as [y|]; try discriminate.
+  - destruct (Nat.eqb x y && (aw (fst rl) =? aw (fst r))) eqn:C; [|discriminate]. intros _.
+    apply andb_prop in C as [_ C]. split; intros; lia.
+  - destruct (aex (fst r)) eqn:Ex; cbn [negb andb].
+    + destruct (negb (aw (fst r) =? aw (fst rl))) eqn:C1; [discriminate|]. intros _. split; intros; [lia|congruence].
+    + intros H'. split; intros Ex'; [congruence|].
+      destruct (aw (fst rl) <? aw (fst r)) eqn:C2; [|lia].
+      exfalso. revert H'.
+      match goal with |- context [if ?c then None else None] => destruct c end; discriminate.
+Qed.
+
 Lemma tc_assign_sig E l e E' ns :
   tc_assign strict' E l e = Some (E', ns) -> (forall i, l <> LTmp i) ->
   exists le rl r, lhs_expr l = Some le /\ tc strict' E le = Some rl /\ tc strict' E e = Some r /\ E' = E /\
@@ -1045,28 +1059,22 @@ Proof.
   intros H Hl. unfold tc_assign in H.
   destruct (tc strict' E e) as [r|] eqn:Te; [|discriminate]. cbn [andb] in H.
   destruct (aovf (fst r)) eqn:Ov; [discriminate|].
-  destruct l as [s p|s p lo hi|s p i|i]; try (exfalso; eapply Hl; reflexivity);
-    cbn [lhs_expr] in H |- *;
-    match type of H with match tc strict' E ?le with _ => _ end = _ =>
-      destruct (tc strict' E le) as [rl|] eqn:Tl; [|discriminate]; exists le, rl, r end;
-    (assert (G : E' = E /\ compat (fst rl) (fst r));
-     [|destruct G; repeat split; auto]);
-    cbn zeta in H;
-    (destruct (astr (fst rl)) as [x|], (astr (fst r)) as [y|]; try discriminate;
-     [destruct (Nat.eqb x y && (aw (fst rl) =? aw (fst r))) eqn:C; [|discriminate]; injection H as <- _;
-      apply andb_prop in C as [_ C]; split; [reflexivity|]; split; intros; lia
-     |]);
-    (destruct (negb (aw (fst (if negb (aex (fst r)) && negb (aw (fst r) =? aw (fst rl)) then enforce (Some (aw (fst rl))) r else r)) =? aw (fst rl))) eqn:C1; [discriminate|]);
-    (destruct (negb (aex (fst r)) && (aw (fst rl) <? aw (fst r))) eqn:C2; [discriminate|]);
-    (destruct (negb (aex (fst r)) && negb (aw (fst r) =? aw (fst rl)) && negb (enforce_ok strict' (Some (aw (fst rl))) r)); [discriminate|]);
-    injection H as <- _; (split; [reflexivity|]);
-    (split; intros Ex; rewrite Ex in *; cbn [negb andb] in *; lia).
+  assert (H' : match lhs_expr l with
+               | Some le => match tc strict' E le with
+                            | Some rl => match assign_sig strict' rl r with Some ns => Some (E, ns) | None => None end
+                            | None => None end
+               | None => None end = Some (E', ns)).
+  { destruct l; try exact H. exfalso; eapply Hl; reflexivity. }
+  clear H. destruct (lhs_expr l) as [le|]; [|discriminate].
+  destruct (tc strict' E le) as [rl|] eqn:Tl; [|discriminate].
+  destruct (assign_sig strict' rl r) as [ns'|] eqn:A; [|discriminate]. injection H' as <- <-.
+  exists le, rl, r. repeat split; auto; eapply assign_sig_compat; eauto.
 Qed.
 
-Lemma store_ok L R v : val_ok R v -> aovf R = false -> compat L R -> wfn (aw L) ->
+Lemma store_ok L R v : val_ok R v -> 0 < aw R -> aovf R = false -> compat L R -> wfn (aw L) ->
   exists u, spec_store (aw L) (to_operand v) = Ok u /\ inrange (aw L) u.
 Proof.
-  intros Hv Ov [C1 C2] Wl. destruct v as [n u|z]; cbn [to_operand spec_store].
+  intros Hv Pr Ov [C1 C2] Wl. destruct v as [n u|z]; cbn [to_operand spec_store].
   - apply val_ok_bits in Hv as (Ex & -> & _ & Hu). rewrite (C1 Ex), Z.eqb_refl in *. eauto.
   - pose proof (val_ok_int_lt _ _ Hv Ov) as Hz.
     assert (Hz' : 0 <= z < 2 ^ aw L).
@@ -1092,3 +1100,106 @@ Proof. intros Ht Hl [H1 H2]. split; intros; rewrite ?Ht, ?Hl; eauto. Qed.
 
 Lemma res_ok_not_evalue a r : res_ok a r -> r <> Err EValue.
 Proof. destruct r as [|[]]; cbn; try discriminate; contradiction. Qed.
+
+Lemma getitem_slice_inv n u zl zh old :
+  spec_getitem n u (ISlice (Some zl) (Some zh) None) = Ok old -> valid_range n zl zh = true /\ fst old = zh - zl.
+Proof.
+  cbn [spec_getitem step_trivial negb bound]. destruct (valid_range n zl zh); [|discriminate]. intros [= <-]. auto.
+Qed.
+Lemma setitem_slice_ok n u zl zh w : valid_range n zl zh = true ->
+  exists r, spec_setitem n u 0 (ISlice (Some zl) (Some zh) None) (OBits (zh - zl) w) = Ok r.
+Proof.
+  intros V. cbn [spec_setitem step_trivial negb bound]. rewrite V. cbn [spec_store]. rewrite Z.eqb_refl. cbn. eauto.
+Qed.
+Lemma getitem_int_inv n u k old :
+  spec_getitem n u (IInt k) = Ok old -> (0 <=? k) && (k <? n) = true /\ fst old = 1.
+Proof. cbn [spec_getitem]. destruct ((0 <=? k) && (k <? n)); [|discriminate]. intros [= <-]. auto. Qed.
+Lemma setitem_int_ok n u k w : (0 <=? k) && (k <? n) = true ->
+  exists r, spec_setitem n u 0 (IInt k) (OBits 1 w) = Ok r.
+Proof. intros V. cbn [spec_setitem]. rewrite V. cbn. eauto. Qed.
+
+Lemma env_ok_set_tmp E st i v R :
+  env_ok E st -> ann_inv R -> aovf R = false -> val_ok R v ->
+  (forall w ex mi, ttmp E i = Some (w, ex, mi) -> w = aw R /\ ex = aex R /\ mi = aint R) ->
+  forall st0, tmpv st0 = tmpv st -> loopv st0 = loopv st ->
+  env_ok (set_ttmp E i (aw R, aex R, aint R)) (set_tmp st0 i v).
+Proof.
+  intros [H1 H2] (Pr & I2 & _) Ov Hv Hsame st0 Ht Hl. split.
+  - intros j w ex mi. cbn. unfold upd_t, upd. destruct (Nat.eqb j i) eqn:J.
+    + intros [= <- <- <-]. split; [exact Pr|]. split; [exact I2|]. intros v' [= <-].
+      destruct v as [n u|z]; cbn in *; [tauto|]. intuition; discriminate.
+    + intros T. rewrite Ht. apply (H1 j w ex mi T).
+  - intros j w T. cbn in *. rewrite Hl. apply (H2 j w T).
+Qed.
+
+Theorem assign_sound E st lbl l e blocking E' ns :
+  tc_assign strict' E l e = Some (E', ns) -> castfree e = true -> castfree_lhs l = true -> env_ok E st ->
+  stmt_res_ok E' (exec_assign (tsig E) st lbl l e blocking).
+Proof.
+  intros H Hce Hcl Henv.
+  destruct l as [s p|s p lo hi|s p ix|i].
+  4: { (* temporary *)
+    unfold tc_assign in H. destruct (tc strict' E e) as [[R lr]|] eqn:Te; [|discriminate]. cbn [fst andb] in H.
+    destruct (aovf R) eqn:Ov; [discriminate|]. destruct (is_struct R); [discriminate|].
+    destruct (tc_sound_gen e E st R lr Te Hce Henv) as [IR RR].
+    cbn [exec_assign]. destruct (eval (tsig E) st e) as [v|er]; cbn [bind fst snd]; [|destruct er; cbn in *; auto].
+    cbn in RR. cbn [stmt_res_ok].
+    destruct (ttmp E i) as [[[w ex] mi]|] eqn:T.
+    - destruct (negb (w =? aw R)) eqn:C1; [discriminate|].
+      destruct (negb (eqb ex (aex R) && eqb mi (aint R))) eqn:C2; [discriminate|]. injection H as <- _.
+      apply negb_false_iff in C2. apply andb_prop in C2 as [C2 C3]. apply eqb_prop in C2, C3.
+      eapply env_ok_set_tmp; eauto. intros w' ex' mi' T'. rewrite T in T'. injection T' as <- <- <-. repeat split; auto. lia.
+    - injection H as <- _. eapply env_ok_set_tmp; eauto. intros w' ex' mi' T'. rewrite T in T'. discriminate. }
+  all: destruct (tc_assign_sig E _ e E' ns H ltac:(intros i; discriminate)) as (le & [L ll] & [R lr] & Hle & Tl & Te & -> & Ov & Hc);
+    cbn [fst] in *; cbn [lhs_expr] in Hle; injection Hle as <-;
+    destruct (tc_sound_gen e E st R lr Te Hce Henv) as [IR RR]; pose proof IR as (PR & _).
+  - (* signal / field *)
+    cbn [tc] in Tl. cbn [exec_assign].
+    destruct (lookup_sig (tsig E) s p) as [f|] eqn:Lk; [|discriminate].
+    destruct (sig_nodes (tsig E) s (tl (rev (prefixes p)))); [|discriminate].
+    destruct (wf_width (fw f)) eqn:W; [|discriminate]. injection Tl as <- _.
+    destruct (eval (tsig E) st e) as [v|er]; cbn [bind fst snd]; [|destruct er; cbn in *; auto].
+    cbn in RR. destruct (negb blocking && negb match p, fstruct f with [], None => true | _, _ => false end); [exact I|].
+    destruct (store_ok (sig_ann f) R v RR PR Ov Hc) as (u & Hu & _); [unfold wf_width in W; unfold wfn; cbn; lia|].
+    cbn [sig_ann aw] in Hu. rewrite Hu. cbn [bind stmt_res_ok].
+    eapply env_ok_same; [| |exact Henv]; destruct blocking; reflexivity.
+  - (* constant / strided slice of a signal *)
+    cbn [castfree_lhs] in Hcl.
+    assert (Hcle : castfree (ESlice (ESig s p) lo hi) = true) by (cbn [castfree]; exact Hcl).
+    destruct (tc_sound_gen _ E st L ll Tl Hcle Henv) as [IL RL].
+    cbn [tc] in Tl. cbn [exec_assign]. cbn [eval] in RL.
+    destruct (lookup_sig (tsig E) s p) as [f|] eqn:Lk; [|discriminate]. cbn [bind] in RL.
+    destruct blocking; cbn [negb]; [|exact I].
+    destruct (eval (tsig E) st lo) as [vl|er]; cbn [bind] in *; [|destruct er; cbn in *; auto].
+    destruct (eval (tsig E) st hi) as [vh|er]; cbn [bind] in *; [|destruct er; cbn in *; auto].
+    cbn zeta. unfold read_field in *. cbn [eval_slice value_int] in *.
+    destruct (spec_getitem (fw f) ((sigv st s / 2 ^ flo f) mod 2 ^ fw f) (ISlice (Some (value_int vl)) (Some (value_int vh)) None))
+      as [old|er] eqn:G; cbn [bind vbits] in *; [|destruct er; cbn in *; auto].
+    apply val_ok_bits in RL as (_ & Hw & Wl & _).
+    destruct (getitem_slice_inv _ _ _ _ _ G) as [V Hold].
+    destruct (eval (tsig E) st e) as [v|er]; cbn [bind fst snd]; [|destruct er; cbn in *; auto].
+    cbn in RR. rewrite Hw in *.
+    destruct (store_ok L R v RR PR Ov Hc Wl) as (u & Hu & _). rewrite Hu. cbn [bind].
+    destruct (setitem_slice_ok (fw f) ((sigv st s / 2 ^ flo f) mod 2 ^ fw f) (value_int vl) (value_int vh) u V) as [r Hr].
+    rewrite <- Hold in Hr. rewrite Hr. cbn [bind stmt_res_ok].
+    eapply env_ok_same; [| |exact Henv]; reflexivity.
+  - (* bit of a signal *)
+    cbn [castfree_lhs] in Hcl.
+    assert (Hcle : castfree (EIdx (ESig s p) ix) = true) by (cbn [castfree]; exact Hcl).
+    destruct (tc_sound_gen _ E st L ll Tl Hcle Henv) as [IL RL].
+    cbn [tc] in Tl. cbn [exec_assign]. cbn [eval] in RL.
+    destruct (lookup_sig (tsig E) s p) as [f|] eqn:Lk; [|discriminate]. cbn [bind] in RL.
+    destruct blocking; cbn [negb]; [|exact I].
+    destruct (eval (tsig E) st ix) as [vi|er]; cbn [bind] in *; [|destruct er; cbn in *; auto].
+    cbn zeta. unfold read_field in *. cbn [eval_index value_int] in *.
+    destruct (spec_getitem (fw f) ((sigv st s / 2 ^ flo f) mod 2 ^ fw f) (IInt (value_int vi)))
+      as [old|er] eqn:G; cbn [bind vbits] in *; [|destruct er; cbn in *; auto].
+    apply val_ok_bits in RL as (_ & Hw & Wl & _).
+    destruct (getitem_int_inv _ _ _ _ G) as [V Hold].
+    destruct (eval (tsig E) st e) as [v|er]; cbn [bind fst snd]; [|destruct er; cbn in *; auto].
+    cbn in RR. rewrite Hold in Hw, Wl. rewrite Hw in Wl.
+    destruct (store_ok L R v RR PR Ov Hc Wl) as (u & Hu & _). rewrite <- Hw in Hu. rewrite Hu. cbn [bind].
+    destruct (setitem_int_ok (fw f) ((sigv st s / 2 ^ flo f) mod 2 ^ fw f) (value_int vi) u V) as [r Hr].
+    rewrite Hr. cbn [bind stmt_res_ok].
+    eapply env_ok_same; [| |exact Henv]; reflexivity.
+Qed.
